@@ -57,3 +57,15 @@ func verifOrder(m map[uint32]*outputBuffer) []*outputBuffer {
 func VerifNewProcessors(cToS, sToC Processor) *Processors {
 	return &Processors{cToS: cToS, sToC: sToC}
 }
+
+// VerifYieldHook, when non-nil, is called before every mutex acquisition of the
+// relay (the call sites are inserted at check time by
+// /verif/tools/instrument.py); the harness uses it to park the calling goroutine
+// so that another one can run in between. With the hook nil it is a no-op.
+var VerifYieldHook func(site string)
+
+func verifYield(site string) {
+	if VerifYieldHook != nil {
+		VerifYieldHook(site)
+	}
+}
